@@ -742,6 +742,9 @@ class Exec:
             return z3.BoolVal(a.sid == b.sid)
         if isinstance(a, LRef) and isinstance(b, LRef):
             return z3.BoolVal(a.sid == b.sid)
+        if isinstance(a, DictV) and isinstance(b, DictV):
+            # dictionaries with constant keys are engine objects that are never copied implicitly (dict(x), {**x} and deepcopy allocate)
+            return z3.BoolVal(a is b)
         raise Undecided("'is' between these values")
 
     def struct_eq(self, a, b):
